@@ -286,6 +286,23 @@ theorem frame_nearest (s : VS) (f : Nat) : Frame s (nearest s f) := by
   unfold nearest
   exact (frame_okey s f).trans (frame_focusAt _ _)
 
+theorem nearestIdx_lt (s : VS) (k : Nat) (h : 0 < s.view.length) : nearestIdx s k < s.view.length := by
+  unfold nearestIdx; simp only; omega
+
+theorem onRefresh_empty {s : VS} (he : s.view.isEmpty = true) : onRefresh s = setFocus s none := by
+  simp [onRefresh, he]
+
+theorem onRefresh_none {s : VS} (he : s.view.isEmpty = false) (hf : s.focus = none) : onRefresh s = focusAt s 0 := by
+  simp [onRefresh, he, hf]
+
+theorem onRefresh_in {s : VS} {f : Nat} (he : s.view.isEmpty = false) (hf : s.focus = some f)
+    (hm : f ∈ (probe s f).view) : onRefresh s = probe s f := by
+  simp [onRefresh, he, hf, hm]
+
+theorem onRefresh_out {s : VS} {f : Nat} (he : s.view.isEmpty = false) (hf : s.focus = some f)
+    (hm : f ∉ (probe s f).view) : onRefresh s = nearest (probe s f) f := by
+  simp [onRefresh, he, hf, hm]
+
 theorem frame_onRefresh (s : VS) : Frame s (onRefresh s) := by
   unfold onRefresh; split
   · exact frame_setFocus s _
@@ -305,10 +322,14 @@ def FocusOK (s : VS) : Prop :=
   | none => s.view = []
   | some f => f ∈ s.view
 
+theorem setFocus_some_eq {s : VS} {f : Nat} (hf : f ∈ s.view) :
+    setFocus s (some f) = emit { probe s f with focus := some f } .fchange := by
+  have hv : f ∈ (probe s f).view := by rw [(frame_probe s f).view]; exact hf
+  simp only [setFocus, hv, if_true]
+
 theorem setFocus_some {s : VS} {f : Nat} (hf : f ∈ s.view) :
     (setFocus s (some f)).focus = some f ∧ (setFocus s (some f)).crash = s.crash := by
-  have hv : f ∈ (probe s f).view := by rw [(frame_probe s f).view]; exact hf
-  simp only [setFocus, hv, if_true, emit]
+  rw [setFocus_some_eq hf]
   exact ⟨rfl, (probe_focus s f).2⟩
 
 theorem setFocus_none (s : VS) : (setFocus s none).focus = none ∧ (setFocus s none).crash = s.crash :=
@@ -317,13 +338,15 @@ theorem setFocus_none (s : VS) : (setFocus s none).focus = none ∧ (setFocus s 
 theorem focusAt_ok {s : VS} {i : Nat} (hi : i < s.view.length) :
     (∃ g, g ∈ s.view ∧ (focusAt s i).focus = some g) ∧ (focusAt s i).crash = s.crash := by
   unfold focusAt rawIdx
-  by_cases hr : s.reversed = true
-  · simp only [hr, if_true, hi]
+  cases hr : s.reversed with
+  | true =>
+    simp only [if_true, hi]
     have hj : s.view.length - 1 - i < s.view.length := by omega
     rw [List.getElem?_eq_getElem hj]
     have hm : s.view[s.view.length - 1 - i] ∈ s.view := List.getElem_mem hj
     exact ⟨⟨_, hm, (setFocus_some hm).1⟩, (setFocus_some hm).2⟩
-  · simp only [hr]
+  | false =>
+    simp only [Bool.false_eq_true, if_false]
     rw [List.getElem?_eq_getElem hi]
     have hm : s.view[i] ∈ s.view := List.getElem_mem hi
     exact ⟨⟨_, hm, (setFocus_some hm).1⟩, (setFocus_some hm).2⟩
@@ -340,43 +363,32 @@ theorem focusOK_of_frame_focus {s s' : VS} (hf : Frame s s') (hfo : s'.focus = s
 /-- `_sig_view_refresh` always leaves a valid focus -/
 theorem onRefresh_ok (s : VS) : FocusOK (onRefresh s) ∧ (onRefresh s).crash = s.crash := by
   have hfr := frame_onRefresh s
-  unfold onRefresh at hfr ⊢
   cases he : s.view.isEmpty with
   | true =>
-    simp only [he, if_true] at hfr ⊢
+    rw [onRefresh_empty he] at hfr ⊢
     refine ⟨?_, (setFocus_none s).2⟩
     unfold FocusOK
     rw [(setFocus_none s).1, hfr.view]
     simpa using he
   | false =>
-    simp only [he] at hfr ⊢
     have hpos := view_length_pos he
     cases hfoc : s.focus with
     | none =>
-      simp only [hfoc] at hfr ⊢
+      rw [onRefresh_none he hfoc] at hfr ⊢
       obtain ⟨⟨g, hg, hfo⟩, hc⟩ := focusAt_ok (s := s) (i := 0) hpos
       refine ⟨?_, hc⟩
       unfold FocusOK; rw [hfo, hfr.view]; exact hg
     | some f =>
-      simp only [hfoc] at hfr ⊢
       have hp := frame_probe s f
       by_cases hm : f ∈ (probe s f).view
-      · simp only [hm, if_true] at hfr ⊢
+      · rw [onRefresh_in he hfoc hm]
         refine ⟨?_, (probe_focus s f).2⟩
         unfold FocusOK; rw [(probe_focus s f).1, hfoc]; exact hm
-      · simp only [hm, if_false] at hfr ⊢
+      · rw [onRefresh_out he hfoc hm] at hfr ⊢
         unfold nearest at hfr ⊢
-        simp only at hfr ⊢
         have ho := frame_okey (probe s f) f
-        have hlen : (okey (probe s f) f).1.view.length = s.view.length := by rw [ho.view, hp.view]
-        have hi : min (if (okey (probe s f) f).1.reversed = true then
-              (if ((okey (probe s f) f).1.view.takeWhile (fun y => decide (ck (okey (probe s f) f).1 y ≤ (okey (probe s f) f).2))).length = 0
-                then 1 else (okey (probe s f) f).1.view.length
-                  - ((okey (probe s f) f).1.view.takeWhile (fun y => decide (ck (okey (probe s f) f).1 y ≤ (okey (probe s f) f).2))).length + 1)
-              else ((okey (probe s f) f).1.view.takeWhile (fun y => decide (ck (okey (probe s f) f).1 y ≤ (okey (probe s f) f).2))).length)
-            ((okey (probe s f) f).1.view.length - 1) < (okey (probe s f) f).1.view.length := by
-          rw [hlen]; omega
-        obtain ⟨⟨g, hg, hfo⟩, hc⟩ := focusAt_ok hi
+        have hlen : 0 < (okey (probe s f) f).1.view.length := by rw [ho.view, hp.view]; exact hpos
+        obtain ⟨⟨g, hg, hfo⟩, hc⟩ := focusAt_ok (nearestIdx_lt _ (okey (probe s f) f).2 hlen)
         refine ⟨?_, ?_⟩
         · unfold FocusOK; rw [hfo, hfr.view, ← hp.view, ← ho.view]; exact hg
         · rw [hc, (okey_focus _ f).2, (probe_focus s f).2]
@@ -386,38 +398,40 @@ theorem onViewAdd_ok {s : VS} {f : Nat} (hf : f ∈ s.view)
     (hold : ∀ g, s.focus = some g → g ∈ s.view) :
     FocusOK (onViewAdd s f) ∧ (onViewAdd s f).crash = s.crash := by
   have hfr := frame_onViewAdd s f
-  unfold onViewAdd at hfr ⊢
   cases hfoc : s.focus with
   | none =>
-    simp only [hfoc, Option.isNone_none, if_true] at hfr ⊢
+    have e : onViewAdd s f = setFocus s (some f) := by simp [onViewAdd, hfoc]
+    rw [e] at hfr ⊢
     refine ⟨?_, (setFocus_some hf).2⟩
     unfold FocusOK; rw [(setFocus_some hf).1, hfr.view]; exact hf
   | some g =>
-    simp only [hfoc, Option.isNone_some, Bool.false_eq_true, if_false]
+    have e : onViewAdd s f = s := by simp [onViewAdd, hfoc]
+    rw [e]
     refine ⟨?_, rfl⟩
     unfold FocusOK; rw [hfoc]; exact hold g hfoc
 
-/-- `_sig_view_remove` after `f` was taken out of a duplicate-free list in which the focus was valid -/
+/-- `_sig_view_remove` after `f` was taken out of a list in which the focus was valid -/
 theorem onViewRemove_ok {s : VS} {f idx : Nat} {old : List Nat} (hv : s.view = old.erase f)
     (hfo : ∀ g, s.focus = some g → g ∈ old) (hsome : old ≠ [] → s.focus ≠ none) (hf : f ∈ old) :
     FocusOK (onViewRemove s f idx) ∧ (onViewRemove s f idx).crash = s.crash := by
   have hfr := frame_onViewRemove s f idx
-  unfold onViewRemove at hfr ⊢
   cases he : s.view.isEmpty with
   | true =>
-    simp only [he, if_true] at hfr ⊢
+    have e : onViewRemove s f idx = setFocus s none := by simp [onViewRemove, he]
+    rw [e] at hfr ⊢
     refine ⟨?_, (setFocus_none s).2⟩
     unfold FocusOK; rw [(setFocus_none s).1, hfr.view]; simpa using he
   | false =>
-    simp only [he] at hfr ⊢
     have hpos := view_length_pos he
     by_cases hfoc : s.focus = some f
-    · simp only [hfoc, if_true] at hfr ⊢
+    · have e : onViewRemove s f idx = focusAt s (min idx (s.view.length - 1)) := by simp [onViewRemove, he, hfoc]
+      rw [e] at hfr ⊢
       have hi : min idx (s.view.length - 1) < s.view.length := by omega
       obtain ⟨⟨g, hg, hfo'⟩, hc⟩ := focusAt_ok hi
       refine ⟨?_, hc⟩
       unfold FocusOK; rw [hfo', hfr.view]; exact hg
-    · simp only [hfoc, if_false]
+    · have e : onViewRemove s f idx = s := by simp [onViewRemove, he, hfoc]
+      rw [e]
       refine ⟨?_, rfl⟩
       unfold FocusOK
       cases hfc : s.focus with
